@@ -1311,7 +1311,7 @@ impl ElementRaw {
     }
 
     /// sort all sub-elements of this element
-    pub(crate) fn sort(&mut self) {
+    pub(crate) fn sort(&mut self, version: AutosarVersion) {
         match self.elemtype.content_mode() {
             ContentMode::Sequence | ContentMode::Choice | ContentMode::Bag => {
                 // sort the content if sorting is allowed (!ordered) and there is more than one child element
@@ -1322,9 +1322,14 @@ impl ElementRaw {
                     for ec_elem in &self.content {
                         if let ElementContent::Element(elem) = ec_elem {
                             // descend into the element and sort it before doing anything else with it
-                            elem.sort();
-                            let (_, elem_indices) =
-                                self.elemtype.find_sub_element(elem.element_name(), u32::MAX).unwrap();
+                            elem.0.write().sort(version);
+                            // the position of a sub element can depend on the version; elements that are not valid in
+                            // this version (lenient loading) are placed according to the versions in which they exist
+                            let (_, elem_indices) = self
+                                .elemtype
+                                .find_sub_element(elem.element_name(), version as u32)
+                                .or_else(|| self.elemtype.find_sub_element(elem.element_name(), u32::MAX))
+                                .unwrap();
                             sorting_vec.push((elem_indices, elem.clone()));
                         }
                         // Sequence, Choice and Bag do not have character content, so else {} is not needed
@@ -1345,7 +1350,7 @@ impl ElementRaw {
                     // in either case we need to descend into the child element(s)
                     for ec in &self.content {
                         if let ElementContent::Element(elem) = ec {
-                            elem.sort();
+                            elem.0.write().sort(version);
                         }
                     }
                 }
